@@ -197,6 +197,9 @@ class Model:
             if s is not None:
                 self.out.append(s)
             return
+        if n["t"] == "code":
+            self.ev(n["e"])         # a code block: evaluated, no output
+            return
         if n["on_error"] is None:
             self.element(n, switch_state)
             return
